@@ -501,4 +501,6 @@ func c17(p *model.Prog, r *report.Result) {
 	w7LastHasOutTs(p, r, "C17.R12")
 	w8KickDisablesApiPull(p, r, "C17.R13")
 	w8StartPullDefaults(p, r, "C17.R14")
+	w9NotifyOnce(p, r, "C17.R15")
+	w9MsClock(p, r, "C17.R16")
 }
